@@ -235,8 +235,10 @@ class ArithFunctions(InterpreterFunctions):
         lhs: int
         rhs: int
         (lhs, rhs) = args
-        assert rhs >= 0
-        return (lhs << rhs,)
+        assert isa(op.result.type, builtin.IndexType | builtin.IntegerType)
+        bitwidth = _int_bitwidth(interpreter, op.result.type)
+        assert 0 <= rhs < bitwidth
+        return (to_signed(lhs << rhs, bitwidth),)
 
     @impl(arith.ShRSIOp)
     def run_shrsi(
@@ -245,8 +247,10 @@ class ArithFunctions(InterpreterFunctions):
         lhs: int
         rhs: int
         (lhs, rhs) = args
-        assert rhs >= 0
-        return (lhs >> rhs,)
+        assert isa(op.result.type, builtin.IndexType | builtin.IntegerType)
+        bitwidth = _int_bitwidth(interpreter, op.result.type)
+        assert 0 <= rhs < bitwidth
+        return (to_signed(lhs, bitwidth) >> rhs,)
 
     @impl(arith.DivSIOp)
     def run_divsi(
@@ -254,12 +258,15 @@ class ArithFunctions(InterpreterFunctions):
     ):
         lhs: int
         rhs: int
-        (lhs, rhs) = args
+        assert isa(op.result.type, builtin.IndexType | builtin.IntegerType)
+        bitwidth = _int_bitwidth(interpreter, op.result.type)
+        lhs = to_signed(args[0], bitwidth)
+        rhs = to_signed(args[1], bitwidth)
         assert rhs != 0
         div = abs(lhs) // abs(rhs)
         if (lhs > 0) != (rhs > 0):
             div = -div
-        return (div,)
+        return (to_signed(div, bitwidth),)
 
     @impl(arith.RemSIOp)
     def run_remsi(
@@ -267,7 +274,10 @@ class ArithFunctions(InterpreterFunctions):
     ):
         lhs: int
         rhs: int
-        (lhs, rhs) = args
+        assert isa(op.result.type, builtin.IndexType | builtin.IntegerType)
+        bitwidth = _int_bitwidth(interpreter, op.result.type)
+        lhs = to_signed(args[0], bitwidth)
+        rhs = to_signed(args[1], bitwidth)
         assert rhs != 0
         div = abs(lhs) // abs(rhs)
         if (lhs > 0) != (rhs > 0):
@@ -280,9 +290,12 @@ class ArithFunctions(InterpreterFunctions):
     ):
         lhs: int
         rhs: int
-        (lhs, rhs) = args
+        assert isa(op.result.type, builtin.IndexType | builtin.IntegerType)
+        bitwidth = _int_bitwidth(interpreter, op.result.type)
+        lhs = to_signed(args[0], bitwidth)
+        rhs = to_signed(args[1], bitwidth)
         assert rhs != 0
-        return (lhs // rhs,)
+        return (to_signed(lhs // rhs, bitwidth),)
 
     @impl(arith.IndexCastOp)
     def run_indexcast(
